@@ -235,6 +235,16 @@ def check(ctx):
     fix_ = find("arg = arg * 0 + flat_arg[ties].min()", acb)
     ok = len(tie) == 1 and len(fix_) == 1 and dominates(acb, tie[0][0], fix_[0][0]) and any(eqv(e, "axis is None") and pol for e, pol in cfg_of(acb).facts(fix_[0][0]))
     ctx.ob("ALG.arg-combine.first-occurrence", acb, "_arg_combine(axis=None): among the candidates equal to the extreme value the smallest flat index wins", ok, "" if ok else "the first tied BLOCK wins instead of the first tied ELEMENT: argmin/argmax of bool / duplicate-heavy n-d arrays differ from NumPy")
+    # ---------------- quantile rechunks when one of the REDUCED axes has several chunks
+    qf = mod.func("quantile")
+    rc_ = [n for n in walk_no_nested(qf) if isinstance(n, ast.If) and "numblocks[" in unparse(n.test)]
+    ok = len(rc_) == 1 and isinstance(rc_[0].test, ast.Call) and unparse(rc_[0].test.func) == "builtins.any" and isinstance(rc_[0].test.args[0], ast.GeneratorExp) and eqv(rc_[0].test.args[0].elt, "a.numblocks[ax] > 1") and eqv(rc_[0].test.args[0].generators[0].iter, "axis")
+    ctx.ob("DOM.quantile.rechunk-reduced-axes", qf, "the single-chunk requirement is tested on the axes in `axis` (not on the first len(axis) axes)", ok, "" if ok else "a reduced axis that is split across chunks is not merged: every block computes its own quantile (wrong values and, with keepdims, a wrong shape)")
+    # ---------------- cumulative reductions: the default output dtype is what the NumPy scan returns for the input dtype
+    cr_ = mod.func("cumreduction")
+    dd_ = [a for a, b_ in find("dtype = M_v", cr_) if any(eqv(e, "dtype is None") and pol for e, pol in cfg_of(cr_).facts(a))]
+    ok = len(dd_) == 1 and eqv(dd_[0].value, "getattr(func(np.ones((0,), dtype=x.dtype)), 'dtype', object)")
+    ctx.ob("ALG.scan.default-dtype", cr_, "cumreduction: dtype defaults to func(np.ones((0,), dtype=x.dtype)).dtype (bool/int8 cumsum widen like NumPy)", ok, "" if ok else "taking the input dtype makes bool cumsum saturate and narrow integers wrap")
 
 
 VARIANTS = [
